@@ -1,6 +1,7 @@
 package props
 
 import (
+	"strconv"
 	"encoding/json"
 	"fmt"
 	"path"
@@ -34,7 +35,43 @@ var pkgo01Re = regexp.MustCompile(`\] (\w+) type is @packageonly`)
 var tagLineRe = regexp.MustCompile(`(?://|/\*) s(\d+)\b`)
 
 // siteKeys maps diagnostics to layout-independent keys.
+// lineDirRe: a //line directive written by the harness. It renames the rest of
+// the file to zz_<name> so that adjusted positions are recognisable.
+var lineDirRe = regexp.MustCompile(`^//line (zz_[^:\s]+):(\d+)$`)
+
+// unshiftDiags maps diagnostics reported at //line-adjusted positions back to
+// the physical lines of the file that holds the directive.
+func unshiftDiags(sources map[string]string, diags []engine.Diag) []engine.Diag {
+	type dir struct {
+		real string
+		l, n int
+	}
+	m := map[string]dir{}
+	for file, src := range sources {
+		if !strings.Contains(src, "//line zz_") {
+			continue
+		}
+		for i, l := range strings.Split(src, "\n") {
+			if mm := lineDirRe.FindStringSubmatch(l); mm != nil {
+				n, _ := strconv.Atoi(mm[2])
+				m[path.Join(path.Dir(file), mm[1])] = dir{file, i + 1, n}
+			}
+		}
+	}
+	if len(m) == 0 {
+		return diags
+	}
+	out := append([]engine.Diag{}, diags...)
+	for i, d := range out {
+		if x, ok := m[d.File]; ok {
+			out[i].File, out[i].Line = x.real, d.Line-x.n+x.l+1
+		}
+	}
+	return out
+}
+
 func siteKeys(sources map[string]string, diags []engine.Diag, maxTag int, prefixes []string, oncePerFileBySite bool) map[string]bool {
+	diags = unshiftDiags(sources, diags)
 	out := map[string]bool{}
 	counts := map[string]int{}
 	seen := map[string]bool{}
